@@ -20,6 +20,17 @@ CLAIMS = {
             "final-block sanity gates dominate the first block load, that data-sized allocations are bounded, and that no "
             "explicit panic / dropped error is reachable from the file-reading entry points.  Does not decide detection of "
             "every flip nor implicit (bounds/overflow) panics.", "§4 C09"),
+    "C12": ("ORDER/GUARDED/ORIGIN over the log writer and reader CFGs; writer/reader discriminant table agreement; R-ERR + panic audit",
+            "Decides: append acknowledges only after the covering fdatasync; frame CRC gate and header size bounds dominate "
+            "the hand-out; the discriminants written equal those accepted and FIRST is completed only by SECOND; split "
+            "records are written header/payload/pad/header/payload after the size checks; failures poison the builder; no "
+            "error is lost or unwrapped in the reader.  Does not decide boundary arithmetic, the prefix property under "
+            "truncation, or exactly-once under interleavings.", "§4 C12"),
+    "C13": ("ORDER/GUARDED/ORIGIN over Manifest::{open,_apply,rollover} and ManifestIterator::next; who-may-call on manifest files; HELD for the lock table",
+            "Decides: one append then sync_data before apply returns; rollover links a backup, writes the roll-up to a "
+            "temporary and renames it; the reader delivers an edit only at its separator and drops a trailing partial edit; "
+            "lines are CRC-gated; the directory lock is taken before reading and owned by the handle; only _apply/rollover "
+            "write manifest files.  Does not decide tolerance of every truncation/crash point or the string alphabet.", "§4 C13"),
 }
 
 NA_DEFAULT = "check not built yet (DESIGN.md §8 build order); will be claimed once its rule set is armed"
